@@ -184,6 +184,58 @@ class PointGraph:
                     dq.append(e.dst)
         return seen
 
+    def reachable_flags(self, starts, blocked_edge=None):
+        """like reachable(), but remembers the outcome of tests of plain local flags (`if (more)` ... `while (more)`) along
+        each path and does not take an edge that contradicts an earlier test of the same, unmodified flag"""
+        def flag_of(lab):
+            if not lab or len(lab) < 2 or lab[0] not in ("true", "false") or lab[1] is None:
+                return None
+            pol = lab[0] == "true"
+            n = lab[1].strip_all_casts()
+            while n.k == "UnaryOperator" and n.get("op") == "!":
+                n = n.child(0).strip_all_casts()
+                pol = not pol
+            if n.k == "DeclRefExpr" and n["decl"]["kind"] == "local" and n.get("tk") in ("int", "bool"):
+                return n["decl"]["name"], pol
+            return None
+        seen = set()
+        dq = deque((s_, frozenset()) for s_ in starts)
+        for s_ in starts:
+            seen.add((s_, frozenset()))
+        pts = set(starts)
+        while dq:
+            p, fl = dq.popleft()
+            for e in self.out[p]:
+                if blocked_edge and blocked_edge(e):
+                    continue
+                nf = fl
+                if e.kind == "elem":
+                    t = store_target(e.node)
+                    if t is not None and t.k == "DeclRefExpr":
+                        name = t["decl"]["name"]
+                        nf = frozenset(x for x in fl if x[0] != name)
+                        if e.node.get("op") == "=":
+                            c = const_of(e.node.child(1))
+                            if c is not None:
+                                nf = nf | {(name, bool(c))}
+                    elif e.node.k == "DeclStmt":
+                        for d in e.node.get("decls", []):
+                            nf = frozenset(x for x in nf if x[0] != d["name"])
+                else:
+                    fo = flag_of(e.label)
+                    if fo is not None:
+                        if (fo[0], not fo[1]) in fl:
+                            continue
+                        nf = fl | {fo}
+                if len(nf) > 6:
+                    nf = frozenset(list(nf)[:6])
+                key = (e.dst, nf)
+                if key not in seen:
+                    seen.add(key)
+                    pts.add(e.dst)
+                    dq.append(key)
+        return pts
+
     def find_path(self, starts, goal, blocked_edge=None):
         """shortest edge list from one of `starts` to a point satisfying goal(p)"""
         prev = {}
